@@ -285,6 +285,34 @@ pub fn c06(rng: &mut impl Rng, len: usize) -> Vec<Value> {
     evs
 }
 
+/// Beyond C06: the same histories with a capacity of 1..3 entries for four values (LRU replacement).
+pub fn c06lru(rng: &mut impl Rng, len: usize) -> Vec<Value> {
+    let mut evs = c06(rng, len);
+    if let Some(rules) = evs[1]["rules"].as_array_mut() {
+        for r in rules.iter_mut() {
+            r["cap"] = json!(rng.gen_range(1..=3u64));
+        }
+    }
+    evs
+}
+
+/// Beyond C07: a hotspot throttling rule whose cache holds 1..2 of the three values.
+pub fn c07lru(rng: &mut impl Rng, len: usize) -> Vec<Value> {
+    loop {
+        let mut evs = c07(rng, len);
+        let mut any = false;
+        if let Some(rules) = evs[2]["rules"].as_array_mut() {
+            for r in rules.iter_mut() {
+                r["cap"] = json!(rng.gen_range(1..=2u64));
+                any = true;
+            }
+        }
+        if any {
+            return evs;
+        }
+    }
+}
+
 /// C07: one flow throttling rule and/or one hotspot throttling rule on a resource.
 /// Arrival instants are requests; the executor logs the instant a call really happened at
 /// (a queued call returns later than it arrived, the next call cannot arrive before that).
